@@ -23,39 +23,49 @@ LEAN_SOURCES = ["LenaModel/Model/C17.lean", "LenaModel/Model/Flow.lean", "LenaMo
                 "LenaModel/Model/C01.lean", "LenaModel/Lemmas/C01.lean", "LenaModel/Props/C01.lean",
                 "LenaModel/Lemmas/C17.lean", "LenaModel/Props/C17.lean"]
 DRIVER = "drivers/C01.lean"
+# the theorems that carry the property (see the module docstring of lean/LenaModel/Props/C01.lean)
 THEOREMS = [
     "Lena.C01.run_eq_fold",
+    "Lena.C01.run_eq_fold_filter",
     "Lena.C01.run_cons",
     "Lena.C01.reject_at_construction",
     "Lena.C01.accept_at_construction",
     "Lena.C01.constructed_sound",
-    "Lena.C01.empty_id",
     "Lena.C01.nodata_only_id",
     "Lena.C01.seq_append",
     "Lena.C01.regroup",
     "Lena.C01.regroup_any_two",
+    "Lena.C01.spec_regroup",
     "Lena.C01.source_tail",
     "Lena.C01.source_move",
-    "Lena.C01.toTree_build",
-    "Lena.C01.spec_regroup",
+    "Lena.C01.source_of_sequence_vals",
+    "Lena.C01.run_callables",
     "Lena.C01.mapS_mapS",
+    "Lena.C01.sliceS_ofList",
+    "Lena.C01.rerunStored_append",
+    "Lena.C01.seq_rerun_append",
+    "Lena.C01.mkBranch_error",
+    "Lena.C01.splitGo_fuel",
+    "Lena.C01.splitLoopH_fuel",
+]
+# true by definition of the model, consistency between two model functions, or restatements of a recursion: audited
+# for axioms like the others, not counted as proof obligations of the property
+AUX_THEOREMS = [
+    "Lena.C01.empty_id",
+    "Lena.C01.toTree_build",
     "Lena.C01.mapS_total",
     "Lena.C01.filterS_total",
     "Lena.C01.fcSpec_total",
-    "Lena.C01.sliceS_ofList",
     "Lena.C01.reverseS_ofList",
-    "Lena.C01.run_callables",
-    "Lena.C01.rerunStored_append",
-    "Lena.C01.seq_rerun_append",
     "Lena.C01.rerun_nil",
     "Lena.C01.runIfH_const",
     "Lena.C01.splitH_seq",
     "Lena.C01.source_of_sequence",
-    "Lena.C01.mkBranch_error",
     "Lena.C01.accFillQ_noFloat",
     "Lena.C01.accComputeQ_noFloat",
     "Lena.C01.source_construction_consumes_nothing",
     "Lena.C01.source_one_pass",
+    "Lena.C01.callAt_zero",
 ]
 TRUSTED = [
     "Lean 4.33.0 kernel; axioms limited to propext, Classical.choice, Quot.sound (audited by #print axioms on every run)",
@@ -70,25 +80,49 @@ TRUSTED = [
     "JSON line protocol encoders (harness/props/c01.py, drivers/C01.lean)",
 ]
 ASSUMPTIONS = [
-    "finite flows; the consumer drains the returned iterator (partial consumption is the subject of C02)",
+    "finite flows; the consumer drains the returned iterator (partial consumption is the subject of C02); the flow given "
+    "to run is iterable (a non-iterable flow makes flow_to_iter raise TypeError - not generated)",
     "flows handed from element to element are iterators (run/compute are generators, as in all lena elements); a compute() "
     "that returns a list is outside the vocabulary",
+    "that a chain of lazily interleaved Python generators is the composition of stream stages (each stage a function of "
+    "the complete upstream stream: values + terminating exception) is the modelling decision of Model/C01Stream.lean, "
+    "validated by the correspondence check and at the pull level by LenaModel/Bridge/Flow.lean "
+    "(machines_yield_stream_prefix, pipeline_den); the theorems of Props/C01.lean are about the conversion and about the "
+    "algebra of that composition",
+    "'an argument that cannot be converted to an element' is read as the capability test of the code (a callable run, "
+    "callable, callable fill and compute - hasattr/callable), not as a judgement about arity or return values: a class "
+    "object (Sequence(lena.flow.Reverse)), lambda: 1 or any callable with the wrong signature IS convertible, is accepted, "
+    "and the TypeError it raises on the first value is that callable's own exception (generated: the class object "
+    "lena.flow.Reverse; recorded as a judgement, not a defect)",
+    "static context is not modelled (C13): LenaSequence.__init__ calls _set_context({}) / _get_context of arguments that "
+    "have them; no generated argument has a broken _get_context/_set_context, and no element of the vocabulary lets its "
+    "output depend on static context (SetContext is generated only as an element without data)",
     "an element object that is run again (inside RunIf: once per selected value; in a Split sequence branch: once per "
-    "buffer; one Sequence object run several times) is described by the complete inputs of its earlier runs: where runs "
-    "repeat, no Slice (the only element that stops pulling early) is generated after an element with state - which "
-    "values an element has seen when its consumer stops early is the pull accounting of C02",
-    "value semantics: where runs repeat StoreFilled is generated only with yield_as_a_group=True (with False it yields its "
-    "stored value objects again, whose contexts later elements changed in place in the earlier run - aliasing is C04)",
-    "Split: branches given as tuples, of type 'sequence' or 'fill_compute' (FillInto-able elements, a fill/compute "
-    "element, a sequence after it); before the fill/compute element only callables, Variable, Filter, RunIf over stateless "
-    "elements are generated (Slice.fill_into / Count.fill_into and LenaStopFill are C17/C05, fill_request and source "
-    "branches C16/C03)",
+    "buffer; one Sequence object run several times; the tail of one Source object called several times) is described by "
+    "the complete inputs of its earlier runs: where runs repeat, no Slice (the only element that stops pulling early) is "
+    "generated after an element with state, and none after a one-pass iterator that is used again - which values an "
+    "element has seen when its consumer stops early is the pull accounting of C02",
+    "value semantics (aliasing is C04): where runs repeat StoreFilled is generated only with yield_as_a_group=True, and a "
+    "container that is the first element of a Source called again holds only immutable values (both would yield the same "
+    "value objects again, whose contexts Count/Variable changed in place in the earlier run)",
+    "the elements of one program are distinct objects, except: one stateless element object passed twice to one "
+    "Sequence is generated; an object WITH state passed twice, or shared between two sequences, is not",
+    "Split: branches given as tuples (and, for stateless sequences, as Sequence objects), of type 'sequence' or "
+    "'fill_compute'; before the fill/compute element only callables, Variable, Filter, RunIf over stateless elements "
+    "(Slice.fill_into / Count.fill_into and a LenaStopFill that reaches Split are C17/C05/C03, fill_request and source "
+    "branches C16/C03); meta.alter_sequence is exercised with a Cache-like hoisting element: its result is discarded by "
+    "the code, so the model has no function for it (the oracle demands that a Sequence branch equals the tuple branch)",
     "a Sequence nested directly in a Sequence that is iterated as first element of a Source is not generated (the generic "
-    "model has no value for that object); element objects travelling as values are observed by their class name",
-    "values observed through the data/context protocol of lena.flow.get_data_context; a float is compared exactly when it "
-    "is float(n)/float(d) of Mean or passes through 0 + f / f / 1.0 unchanged; any other float arithmetic (Sum/Mean over "
-    "floats) is predicted as 'some float' and accepted as such",
-    "Python attribute lookup (hasattr/callable/isinstance) is represented by capability flags read from the real objects",
+    "model has no value for that object); element objects and None travelling as values are observed by their class name",
+    "value universe: ints, strings, None, lists, tuples, (data, context) pairs, dyadic floats; bool is excluded (bool "
+    "arithmetic is int arithmetic; nothing in the anchored code looks at the type); a float is compared exactly when it is "
+    "an input value, float(n)/float(d) of Mean, or passes through 0 + f / f / 1.0 unchanged; any other float arithmetic "
+    "is predicted as 'some float' and accepted as such",
+    "exceptions raised by elements: TypeError, ValueError, IndexError, LenaValueError, LenaStopFill, LenaTypeError, "
+    "LenaZeroDivisionError, LenaAttributeError (from callables, predicates, fill, compute and the input iterator); "
+    "StopIteration inside a generator and BaseException are not generated",
+    "Python attribute lookup (hasattr/callable/isinstance) is represented by capability flags read from the real objects; "
+    "a callable attribute is assumed to have the arity its caller uses",
 ]
 RULE = ("exhaustive: capability flags (run, __call__, fill, compute, _has_no_data, __iter__, fill_into, _can_break_flow, "
         "request, Split) of every vocabulary kind and of all 108 synthetic classes (run/fill/compute in {absent, non-callable, "
@@ -110,7 +144,13 @@ RULE = ("exhaustive: capability flags (run, __call__, fill, compute, _has_no_dat
         "model forms; Source(first, *els) with every cut point, with arguments without data before the first element, "
         "with a Sequence as first element. Per case also: conversion chosen per data element against the documented "
         "precedence, len / __getitem__ / __iter__ / flatten of the first argument, the callable composition for programs "
-        "of callables. Non-trivial: at least two data elements and (a value yielded or an exception).")
+        "of callables. Review follow-up: None and dyadic floats as flow values; callables that return None or raise "
+        "LenaValueError/LenaStopFill/LenaTypeError on a marked value, predicates and fill methods that do; Run(obj, "
+        "run='alt') for objects with run and alt absent/non-callable/method; an object both callable and iterable; a class "
+        "object, a list, a tuple as arguments; ONE Source object called 2-3 times (generator function, container, one-pass "
+        "iterator, callable+iterable first; tail with state); one stateless element object passed twice; Split branches "
+        "given as Sequence objects (through meta.alter_sequence, with Cache-like hoisting elements) against tuples; the "
+        "auxiliary functions runIfS, accFill/accCompute, pySlice, Element.sourceFlow against the code. Non-trivial: at least two data elements and (a value yielded or an exception).")
 CASE_TIMEOUT = 10
 
 # ----------------------------------------------------------------------------------------
@@ -1689,6 +1729,12 @@ def gen_cases(ctx):
         if s["k"] != "seq":
             yield ({"op": "source", "first": {"k": "seq", "els": [s]}, "els": [store], "cuts": [0, 1, 2]})
     yield ({"op": "source0"})
+    # objects that are not elements, as arguments of a Sequence: None, a list, a single tuple of elements (the docstring
+    # of Sequence.__init__ mentions it; the code rejects it like any other tuple), Run(None, run=5), a class object
+    for s in ({"k": "junk"}, {"k": "iter", "flow": [1, 2]}, {"k": "iter", "flow": [1, 2], "tuple": True},
+              {"k": "runnonebad"}, {"k": "classobj"}, {"k": "both", "cflow": [1], "iflow": [2]}):
+        yield ({"op": "regroup", "els": [s], "flow": [1, 2], "term": None, "brks": [[0], [[0]]]})
+        yield ({"op": "regroup", "els": [inc, s], "flow": [1, 2], "term": None, "brks": [[0, 1], [[0], [1]], [0, [1]]]})
     # all ordered pairs of representative elements
     reps = REPRESENTATIVES
     for i, a in enumerate(reps):
@@ -1746,7 +1792,7 @@ def gen_cases(ctx):
         yield ({"op": "splits", "branches": branches, "bufsize": rng.choice([None, 1, 2, 3, 4, 1000, 0]),
                 "flow": gen_flow(rng), "term": gen_term(rng)})
     # one Source object called two or three times
-    for _ in range(500 if not thorough else 8000):
+    for _ in range(350 if not thorough else 8000):
         r = rng.random()
         if r < 0.3:
             first = {"k": "gen", "flow": gen_flow(rng, 5)}
@@ -1766,7 +1812,7 @@ def gen_cases(ctx):
         yield ({"op": "source_rerun", "first": first, "els": [gen_elem(rng, st, 0) for _ in range(n)],
                 "k": rng.choice([2, 2, 3])})
     # one object passed twice to one Sequence (stateless elements)
-    for _ in range(150 if not thorough else 3000):
+    for _ in range(100 if not thorough else 3000):
         n = rng.choice([2, 3, 3, 4, 5])
         st = new_state(rerun=True, stateless=True)
         els = []
@@ -1784,7 +1830,7 @@ def gen_cases(ctx):
         yield ({"op": "regroup", "els": els, "flow": gen_flow(rng), "term": gen_term(rng), "share": [i, j],
                 "brks": [flat_bracketing(n)] + [random_bracketing(rng, n) for _b in range(2)]})
     # auxiliary model functions that theorems mention, against the code: runIfS, accFill/accCompute, pySlice
-    for _ in range(120 if not thorough else 2000):
+    for _ in range(80 if not thorough else 2000):
         ist = new_state(rerun=True, stateless=True)
         yield ({"op": "tie", "what": "runifs", "p": rng.choice(PREDS),
                 "inner": [gen_elem(rng, ist, 1) for _e in range(rng.choice([0, 1, 2]))], "flow": gen_flow(rng),
@@ -1971,15 +2017,19 @@ def shrink(case):
 
 
 # ---- MANIFEST texts ------------------------------------------------------------------------
-LEVEL_TEXT = ("Lean 4 theorems about a transcribed model of Sequence/Source/LenaSequence/adapters.Run/meta.flatten for ALL "
-              "element lists, bracketings (any depth) and flows (no bound), over a stream model that keeps Python's lazy "
-              "exception order, also for sequence objects that are run again with the state their elements keep (inside "
+LEVEL_TEXT = ("Lean 4 theorems about a transcribed model of Sequence/Source/LenaSequence/adapters.Run/meta.flatten: which "
+              "adapter the constructors choose and that no method is missing later (all capability combinations), and the "
+              "algebra of the composition of stream stages for ALL element lists, bracketings (any depth) and streams (no "
+              "bound) - the stream model keeps Python's lazy exception order; that generator chains ARE such compositions "
+              "is validated, not proved here (Bridge/Flow.lean relates it to the pull-level machines of C02) -, also for sequence objects that are run again with the state their elements keep (inside "
               "RunIf, in Split branches); the model is tied to /repo by a correspondence check over the real element "
               "vocabulary (incl. Split with sequence and fill_compute branches, stateful elements inside RunIf/Split, a "
               "Sequence as first element of a Source) and all 108 synthetic capability classes (exhaustive small scopes + "
               "seeded random programs), plus a direct oracle: pairwise equality of all bracketings / Source forms / "
               "repeated runs and a hand-chained reference composition on the real code.")
 LEVEL_NOTE = ("Trusted: Lean kernel (+ propext, Classical.choice, Quot.sound), the hand transcription validated by the "
-              "correspondence run, generator/islice/deque semantics as transcribed, the JSON protocol.")
+              "correspondence run, the stream abstraction of generator chains, islice/deque semantics as transcribed, the "
+              "JSON protocol. 22 theorems carry the property; 15 auxiliary ones (definitional / model-internal) are audited "
+              "but not counted.")
 TECHNIQUE = "Lean 4 proof over hand-written model + correspondence check (exhaustive small scopes, seeded sampling)"
 DESIGN_REF = "DESIGN.md section 3, C01"
